@@ -27,6 +27,21 @@ const char *vprop_class_names[V_NCLASS] = {
 
 static const char *tnames[8] = { "avx", "sse", "mmx", "altivec", "neon", "mips", "c64x-c", "c" };
 
+/* what an earlier compilation left in freed heap blocks is part of the history too: before each of the three compilations the
+   blocks the compiler is about to get from malloc (code buffer, compiler object, listing buffers) are handed out once, filled with
+   a pattern of their own and freed again, so that any byte the compiler emits or reads without having written it differs between
+   the compilations in a reproducible way (the same stream gives the same patterns in a replay) */
+static void heap_poison (unsigned char pattern)
+{
+  static const size_t sizes[] = { 65536, sizeof (OrcCompiler), 32768, 16384, 8192, 4096, 2048, 1024, 512, 256, 128, 64, 32 };
+  void *blk[13][3];
+  size_t i, k;
+  for (i = 0; i < sizeof sizes / sizeof sizes[0]; i++)
+    for (k = 0; k < 3; k++) { blk[i][k] = malloc (sizes[i]); if (blk[i][k]) memset (blk[i][k], pattern, sizes[i]); }
+  for (i = 0; i < sizeof sizes / sizeof sizes[0]; i++)
+    for (k = 0; k < 3; k++) free (blk[i][k]);
+}
+
 static void quiet_print (int level, const char *file, const char *func, int line, const char *fmt, va_list args)
 {
   /* format it (argument evaluation and formatting are part of what a debug level changes), then drop it */
@@ -151,6 +166,7 @@ void vprop_case (VChoices *c, VResult *r)
   orc_debug_set_level (lvl0);
   v_stage (r, "@notmine: first compile target=%s", tnames[t]);
   p0 = ps_build (&ps);
+  heap_poison (0x00);
   res = orc_program_compile_full (p0, target, flags);
   snap_take (&s0, p0, res);
   v_stage (r, "history");
@@ -195,6 +211,7 @@ void vprop_case (VChoices *c, VResult *r)
   orc_debug_set_level (lvl1);
   v_stage (r, "second compile target=%s", tnames[t]);
   p1 = ps_build (&ps);
+  heap_poison (0xa5);
   res = orc_program_compile_full (p1, target, flags);
   snap_take (&s1, p1, res);
   v_desc (r, "# compile #1: %s, %d bytes at %p\n", v_result_name (res), s1.code_size, s1.exec);
@@ -218,6 +235,7 @@ void vprop_case (VChoices *c, VResult *r)
   }
   v_stage (r, "reset + third compile target=%s", tnames[t]);
   orc_program_reset (p1);
+  heap_poison (0x5a);
   res = orc_program_compile_full (p1, target, flags);
   snap_take (&s2, p1, res);
   d = snap_diff (&s0, &s2, msg, sizeof msg);
